@@ -230,10 +230,13 @@ pub struct BbCase {
 	/// created while the failure is reported, the following attempts succeed
 	#[serde(default)]
 	pub broken_output_first: bool,
+	/// a file-pre-edit hook of the certificate moves the old file away (keeps a .bak): the rewrite creates the file anew
+	#[serde(default)]
+	pub pre_edit_moves: bool,
 }
 
 fn bb_strategy() -> impl Strategy<Value = BbCase> {
-	(perm_strategy(), 1usize..=2, prop_oneof![2 => Just(false), 1 => Just(true)], prop_oneof![2 => Just(false), 1 => Just(true)]).prop_map(|(perm, issuances, split_global, broken_output_first)| BbCase { perm, issuances, split_global, broken_output_first })
+	(perm_strategy(), 1usize..=2, prop_oneof![2 => Just(false), 1 => Just(true)], prop_oneof![2 => Just(false), 1 => Just(true)], prop_oneof![2 => Just(false), 1 => Just(true)]).prop_map(|(perm, issuances, split_global, broken_output_first, pre_edit_moves)| BbCase { perm, issuances: if pre_edit_moves { 2 } else { issuances }, split_global, broken_output_first, pre_edit_moves })
 }
 
 fn exec_bb(case: &BbCase) -> Outcome {
@@ -271,9 +274,13 @@ fn exec_bb(case: &BbCase) -> Outcome {
 	}
 	let mut include: Vec<String> = vec![];
 	if case.split_global && !perm_opts.is_empty() {
-		let inc = dir.join("perms.toml");
+		// two drop-in files: the options of the first must survive the second one's unrelated [global] table
+		let inc = dir.join("10-perms.toml");
 		let _ = std::fs::write(&inc, crate::toml_out::document(&json!({"global": perm_opts})));
 		include.push(inc.display().to_string());
+		let inc2 = dir.join("20-other.toml");
+		let _ = std::fs::write(&inc2, "[global]\nrenew_delay = \"20d\"\n");
+		include.push(inc2.display().to_string());
 	} else {
 		for (k, v) in perm_opts.iter() {
 			global[k] = v.clone();
@@ -283,6 +290,10 @@ fn exec_bb(case: &BbCase) -> Outcome {
 	let mut hooks: Vec<&str> = fh.to_vec();
 	let mut all_hooks = bb::std_hooks(&coll.sock);
 	let later = dir.join("created-later");
+	if case.pre_edit_moves {
+		all_hooks.push(json!({"name": "keep-a-backup", "type": ["file-pre-edit"], "cmd": "mv", "args": ["-f", "{{ file_path }}", "{{ file_path }}.bak"]}));
+		hooks.insert(0, "keep-a-backup");
+	}
 	if case.broken_output_first {
 		all_hooks.push(json!({"name": "noisy", "type": ["challenge-http-01"], "cmd": "true", "stdout": later.join("out.txt").display().to_string(), "allow_failure": true}));
 		hooks.push("noisy");
@@ -364,11 +375,11 @@ fn exec_bb(case: &BbCase) -> Outcome {
 		}
 	}
 	let nontrivial = p.pk_mode.is_some() || p.pk_user.is_some() || p.pk_group.is_some();
-	Outcome::pass(nontrivial, vec![format!("umask={:03o}", p.umask), format!("issuances={}", case.issuances), format!("post-edit-seen={}", n_post_edit > 0), format!("options-in-included-file={}", case.split_global), format!("failed-hook-output-first={}", case.broken_output_first)])
+	Outcome::pass(nontrivial, vec![format!("umask={:03o}", p.umask), format!("issuances={}", case.issuances), format!("post-edit-seen={}", n_post_edit > 0), format!("options-in-included-file={}", case.split_global), format!("failed-hook-output-first={}", case.broken_output_first), format!("pre-edit-hook-moves-the-file={}", case.pre_edit_moves)])
 }
 
 pub fn run(ctx: &Ctx, rep: &mut Report) {
-	rep.rule = "permission settings: cert_file_mode / pk_file_mode absent or any 9-bit value, user and group absent / by name / by number (accounts present in the image; the harness runs as root so chown is observable), process umask in {000,002,022,027,077}. pr: histories of 2..6 writes of certificate, key and account files (creations and rewrites) through the daemon's storage functions; bb: 1..2 issuances through the real daemon with file hooks attached to certificate and account; in a third of the cases the options stand in an included file's [global] table; in a third a challenge hook's output file cannot be created at the first attempt (missing directory, created while the failure is reported), and the files written by the following attempts are judged. Oracle (stat from the probe / from the file-post-create, file-post-edit and post-operation recorders): mode == (configured or default 0644/0600/0600) & ~umask, uid/gid == configured (names resolved independently from /etc/passwd and /etc/group) else unchanged; account files 0600 and never chowned; a rewrite keeps the mode and re-applies the owner. Non-trivial = a private-key setting (mode, user or group) is configured.".into();
+	rep.rule = "permission settings: cert_file_mode / pk_file_mode absent or any 9-bit value, user and group absent / by name / by number (accounts present in the image; the harness runs as root so chown is observable), process umask in {000,002,022,027,077}. pr: histories of 2..6 writes of certificate, key and account files (creations and rewrites) through the daemon's storage functions; bb: 1..2 issuances through the real daemon with file hooks attached to certificate and account; in a third of the cases the options stand in the [global] table of the first of two included files; in a third a file-pre-edit hook moves the old file away before it is rewritten; in a third a challenge hook's output file cannot be created at the first attempt (missing directory, created while the failure is reported), and the files written by the following attempts are judged. Oracle (stat from the probe / from the file-post-create, file-post-edit and post-operation recorders): mode == (configured or default 0644/0600/0600) & ~umask, uid/gid == configured (names resolved independently from /etc/passwd and /etc/group) else unchanged; account files 0600 and never chowned; a rewrite keeps the mode and re-applies the owner. Non-trivial = a private-key setting (mode, user or group) is configured.".into();
 	rep.assume("the harness runs as root (chown observable); only users/groups that exist in the image are generated");
 	run_replays::<PrCase>(ctx, rep, "pr", &exec_pr);
 	run_replays::<BbCase>(ctx, rep, "bb", &exec_bb);
